@@ -97,7 +97,12 @@ func HarnessC05Write() {
 	}
 	hasNaN, hasType := false, false
 	rootTomb := false
-	for _, p := range batch {
+	// the deletion state the batch asks for is that of its newest tombstone
+	// point (a batch stands for its newest point per identity; equal
+	// timestamps within one identity are outside the property's quantifier)
+	var newestTomb *data.Point
+	for i := range batch {
+		p := batch[i]
 		if p.Type == data.PointTypeNodeType {
 			hasType = true
 			continue
@@ -105,9 +110,17 @@ func HarnessC05Write() {
 		if p.Value != p.Value {
 			hasNaN = true
 		}
-		if p.Type == data.PointTypeTombstone && p.Value == 1 {
-			rootTomb = true
+		if p.Type == data.PointTypeTombstone {
+			if newestTomb != nil {
+				vAssume(!newestTomb.Time.Equal(p.Time))
+			}
+			if newestTomb == nil || newestTomb.Time.Before(p.Time) {
+				newestTomb = &batch[i]
+			}
 		}
+	}
+	if newestTomb != nil && newestTomb.Value == 1 {
+		rootTomb = true
 	}
 	payload, err := batch.ToPb()
 	vAssume(err == nil)
